@@ -29,7 +29,7 @@ type c14Mut struct {
 	Arg int    `json:"arg"`
 }
 
-var c14Muts = []string{"cb-amount-plus1", "cb-amount-minus1", "cb-extra-recipient", "cb-missing-recipient", "cb-vote-output"}
+var c14Muts = []string{"cb-amount-plus1", "cb-proposer-plus", "cb-proposer-plus", "cb-amount-minus1", "cb-extra-recipient", "cb-missing-recipient", "cb-vote-output"}
 
 func c14Gen(t *rapid.T) c14Case {
 	p := ck.Params{Epoch: uint64(rapid.IntRange(3, 5).Draw(t, "epoch")), Validators: rapid.IntRange(1, 4).Draw(t, "validators"), NodeKey: -1,
@@ -56,7 +56,7 @@ func c14Gen(t *rapid.T) c14Case {
 	}
 	nm := rapid.IntRange(1, 3).Draw(t, "nmut")
 	for i := 0; i < nm; i++ {
-		at := rapid.IntRange(2, n).Draw(t, "mutat")
+		at := rapid.IntRange(1, n).Draw(t, "mutat")
 		if rapid.Bool().Draw(t, "onreward") {
 			// aim at a reward block: height = k*E+1
 			k := rapid.IntRange(1, epochs).Draw(t, "mutepoch")
